@@ -139,6 +139,10 @@ def units(tier):
     from props.common import wrap as _wrap
     _wrap(us, "C15.Solution.add.amounts_add_state_variables_average", SO.unit_solution_add)
     _wrap(us, "C15.Solution.multiply.scales_amounts_only", SO.unit_solution_multiply)
+    from props import c15_more as MO
+    _wrap(us, "C15.compute_gfw.cache_coherent_with_element_weights", MO.unit_gfw_cache)
+    _wrap(us, "C15.cxxMix.Add.accumulates_repeated_numbers", MO.unit_mix_add)
+    _wrap(us, "C15.tidy_solutions.unnumbered_rows_get_unused_numbers", MO.unit_tidy_solutions_numbering)
     return us
 
 
